@@ -7,8 +7,49 @@ from asyncchecks import *
 THEOREMS = ["want_send_on_unlisted_is_noop", "unregister_tolerates_absent", "remove_tolerates_absent", "pfds_aligned_invariant", "promises_resolved_at_most_once_guard"]
 
 
+# bounded-exhaustive part: EVERY sequence of up to L operations over this alphabet, on one driver with one asynchronous TCP socket
+# (whose disconnect handler destroys it, or not) and one ToDo, under three kernels (benign / peer goes away / sends fail).
+ALPHABET = [
+    [(1061, [1, 9, 5])],                # Send
+    [(1041, [0])],                      # Step
+    [(14, []), (1028, [1])],            # destroy the socket (buffers given back first)
+    [(1044, [])],                       # destroy the driver
+    [(1052, [1])],                      # Cancel the ToDo
+    [(1051, [1, 2, 0])],                # Shift the ToDo to "now"
+    [(1043, []), (1042, [])],           # Stop + Run
+]
+KERNELS = [
+    {"timeout": 0.0, "pipe": 0.0, "eintr": 0.0, "pollerr": 0.0, "senderr": 0.0, "recverr": 0.0, "hup": 0.0, "close": 0.0, "fail_after_partial": 0.0, "short": 0.3},
+    {"timeout": 0.0, "pipe": 0.0, "eintr": 0.0, "pollerr": 0.0, "senderr": 0.0, "recverr": 0.3, "hup": 0.5, "close": 0.6, "fail_after_partial": 0.0},
+    {"timeout": 0.0, "pipe": 0.0, "eintr": 0.0, "pollerr": 0.0, "senderr": 0.7, "recverr": 0.0, "hup": 0.0, "close": 0.0, "fail_after_partial": 0.9},
+]
+
+
+def enumerate_short(rnd, tier):
+    import itertools
+    L = {"quick": 3, "thorough": 4, "search": 3}[tier]
+    cases = []
+    n = 0
+    for self_destroy in (0, 1):
+        prefix = [(1, [1]), (2, []), (1, [2])] + ([(28, [1])] if self_destroy else []) + [(2, []), (1, [3]), (2, []),
+                  (40, []), (10, [9, 0, 0]), (20, [1]), (30, [1, 2, 16]), (60, [1, 1, 2]), (50, [1, 2, 0, 3])]
+        for ln in range(1, L + 1):
+            for seq in itertools.product(range(len(ALPHABET)), repeat=ln):
+                ops = list(prefix)
+                for a in seq:
+                    ops += ALPHABET[a]
+                for kn, prof in enumerate(KERNELS):
+                    if tier != "thorough" and (n + kn) % 2:      # quick tier: every other (sequence, kernel) pair
+                        continue
+                    c = Case("enum%d.%s.k%d-%d" % (self_destroy, "".join(str(a) for a in seq), kn, n), ops, [], [],
+                             {"kind": "enum", "flavour": "enum", "instant": True, "profile": prof, "pipe_fd": 1001})
+                    cases.append(c)
+                n += 1
+    return dc.grow(cases, dc.chooser, rnd)
+
+
 def generate(rnd, tier):
-    return dc.generate_driver(rnd, tier, 500)
+    return dc.generate_driver(rnd, tier, 500) + enumerate_short(rnd, tier)
 
 
 def nontrivial_key(c, tr):
@@ -30,7 +71,9 @@ SPEC = {
     "id": "C17", "module": "Properties_C17", "theorems": THEOREMS, "harness": "sim", "flavour": "san",
     "generate": generate, "project": project_async, "nontrivial_key": nontrivial_key, "monitor": monitor,
     "distribution": distribution,
-    "rule": "state-aware random walk over create / send / step / peer-action / destroy / cancel / shift on one driver, 1-3 async sockets of every class, "
+    "rule": "bounded-exhaustive: every sequence of <= 3 (quick: every other one; thorough: <= 4, all) operations over {Send, Step, destroy socket, destroy driver, Cancel, Shift, Stop+Run} on one "
+            "driver with one asynchronous TCP socket (disconnect handler destroying the socket or not) and one ToDo, under three kernels (benign, peer goes away, sends fail); plus a "
+            "state-aware random walk over create / send / step / peer-action / destroy / cancel / shift on one driver, 1-3 async sockets of every class, "
             "pools and ToDos: sending on a socket whose peer already disconnected, destroying a socket inside its disconnect handler or with sends pending, "
             "destroying the driver before or after its sockets and ToDos, cancelling/shifting finished ToDos, stepping an empty driver; run in an isolated "
             "process under AddressSanitizer+UBSan with _GLIBCXX_SANITIZE_VECTOR and the library's asserts enabled. non-trivial: >= 4 operations.",
